@@ -4,7 +4,7 @@ Implementation side: harness binary sjh_typed (the universal DeserializeSeed of 
 model side: sjdriver_typed (Model/DeTyped.v extracted).  Encodings of <ty> and <dval>: Extract/Driver_typed.v.
 Registered here: C06.  Exported for the coordinator: run_c10_typed, run_c09_typed, run_c14_typed, run_c04_typed
 (each takes the ctx of the property it is wired into and appends to ctx.violations / ctx.disagreements)."""
-import itertools, struct, collections
+import itertools, struct, collections, os, re
 import engine, gen
 from gen import hx
 from checks import register, log
@@ -1448,6 +1448,23 @@ def run_c04_typed(ctx):
                 ctx.distinct_nontrivial += 1
                 ctx.count('roundtrip-top:' + t[0])
         ctx.violations += v
+        # tie of Model/SerTyped.v (sval_of_dval: what the C04_typed theorems call "the serialised datum") to the harness's universal Serialize:
+        # the model re-reads the implementation's own compact text at the type, maps the datum to its tree of Serializer calls and prints it —
+        # it must reproduce that text (float-free types: no ryu text needed on the model side)
+        if ctx.model_ok and os.path.exists(os.path.join(engine.VERIF, 'ocaml', 'sjdriver_rt')):
+            sel = []
+            for (t, d), a in zip(cases, outs):
+                f = a.split(' ')
+                if f[0] == 'ok' and len(f) == 3:
+                    bare = re.sub(r'[syzer][0-9a-f]*', '', f[1])          # drop hex payloads (strings, bytes, names, raw text)
+                    if not any(ch in bare for ch in 'dvg') and 'r' not in re.sub(r'[syze][0-9a-f]*', '', f[1]):
+                        sel.append((t, f[2]))
+            mouts = ctx.model(['rtm %s %s %s' % (L, enc_ty(t), h) for t, h in sel], 'sjdriver_rt')
+            for (t, h), m in zip(sel, mouts):
+                if m != 'ok ' + h:
+                    ctx.violations.append({'what': 'universal-serialize-differs-from-SerTyped-model', 'cfg': cfg, 'type': enc_ty(t), 'input': h,
+                                           'expected': 'the model reproduces the text the harness printed: ok ' + h[:200], 'actual': m[:300], 'shrinkable': False})
+            ctx.count('sertyped-model-lines', len(sel))
         for ln in lines[:3]:
             ctx.sample({'case': ln[:300], 'cfg': cfg})
 
